@@ -24,7 +24,10 @@ CONSTANTS
   Writers,   \* writers offered to SetIdentity ({} = disabled)
   Denied,    \* <<D_1..D_NR>> set of writers each replica's access controller denies
   HashPerm,  \* "id" | "rev": hash rank of the i-th created entry (i or -i)
-  IterOn     \* set of replicas on which Iterator is exercised ({} = never)
+  IterOn,    \* set of replicas on which Iterator is exercised ({} = never)
+  Evil,      \* replicas that may replace entries they hold by tampered copies ({} = none)
+  Kinds,     \* tamper kinds offered: "unsigned","missigned","nokey","payload","wrongkey","foreign"
+  MaxBad     \* bound on the number of tampered copies
 
 VARIABLES
   U,      \* sequence of entry records (index = creation order = model CID)
@@ -34,10 +37,11 @@ VARIABLES
   clk,    \* [1..NR -> Nat]                 l.Clock time
   ident,  \* [1..NR -> writer]
   pure,   \* [1..NR -> BOOLEAN]  only appends and unbounded joins of pure logs so far
+  bad,    \* [1..NR -> SUBSET (DOMAIN U \X Kinds)]  tampered copies held in place of the original
   hist    \* the history (sequence of ops), exported for replay
 
-vars == <<U, ents, heads, nidx, clk, ident, pure, hist>>
-core == <<U, ents, heads, nidx, clk, ident, pure>>
+vars == <<U, ents, heads, nidx, clk, ident, pure, bad, hist>>
+core == <<U, ents, heads, nidx, clk, ident, pure, bad>>
 
 R == 1..NR
 
@@ -54,6 +58,7 @@ Init ==
   /\ clk   = [r \in R |-> 0]
   /\ ident = [r \in R |-> Writer0[r]]
   /\ pure  = [r \in R |-> TRUE]
+  /\ bad   = [r \in R |-> {}]
   /\ hist  = <<>>
 
 \* an Iterator call ends the history (it does not change any state)
@@ -80,7 +85,7 @@ AppendOk(r, pc) ==
         /\ nidx'  = [nidx EXCEPT ![r] = @ \cup SeqRange(e.next)]
         /\ clk'   = [clk EXCEPT ![r] = e.t]
   /\ hist' = Append(hist, <<"A", r, pc>>)
-  /\ UNCHANGED <<ident, pure>>
+  /\ UNCHANGED <<ident, pure, bad>>
 
 AppendDenied(r, pc) ==
   /\ CanOp /\ Len(U) < MaxE
@@ -89,7 +94,7 @@ AppendDenied(r, pc) ==
      IN /\ U' = Append(U, e)                      \* the orphan block
         /\ clk' = [clk EXCEPT ![r] = e.t]         \* the tick is kept
   /\ hist' = Append(hist, <<"A", r, pc>>)
-  /\ UNCHANGED <<ents, heads, nidx, ident, pure>>
+  /\ UNCHANGED <<ents, heads, nidx, ident, pure, bad>>
 
 (***************************************************************************)
 (* Join (log.go l.510-618).  r = s is the "same instance" early return,    *)
@@ -102,14 +107,20 @@ JoinNoop(r, s) ==
   /\ hist' = Append(hist, <<"J", r, s>>)
   /\ UNCHANGED core
 
+\* what the copies held by replica s look like: a "foreign" copy carries another log id
+BadIds(s)  == {b[1] : b \in bad[s]}
+UFor(s)    == [x \in DOMAIN U |-> IF <<x, "foreign">> \in bad[s] THEN [U[x] EXCEPT !.lid = "~"] ELSE U[x]]
+Invalid(s) == {b[1] : b \in {c \in bad[s] : c[2] # "foreign"}}      \* copies that must not verify
+
 CandidatesValid(r, s) ==
-  \A x \in SeqRange(JoinCandidates(U, St(r), Src(s), Lid[r])) : U[x].w \notin Denied[r]
+  \A x \in SeqRange(JoinCandidates(UFor(s), St(r), Src(s), Lid[r])) :
+     U[x].w \notin Denied[r] /\ x \notin Invalid(s)
 
 JoinOk(r, s, size) ==
   /\ CanOp
   /\ r # s /\ Lid[r] = Lid[s]
   /\ CandidatesValid(r, s)
-  /\ LET j == JoinResult(U, Fn, St(r), Src(s), Lid[r], size)
+  /\ LET j == JoinResult(UFor(s), Fn, St(r), Src(s), Lid[r], size)
      IN /\ ~j.panic
         /\ ents'  = [ents EXCEPT ![r] = j.ents]
         /\ heads' = [heads EXCEPT ![r] = j.heads]
@@ -117,7 +128,7 @@ JoinOk(r, s, size) ==
         /\ clk'   = [clk EXCEPT ![r] = j.clk]
   /\ pure' = [pure EXCEPT ![r] = @ /\ pure[s] /\ size < 0]
   /\ hist' = Append(hist, IF size < 0 THEN <<"J", r, s>> ELSE <<"JB", r, s, size>>)
-  /\ UNCHANGED <<U, ident>>
+  /\ UNCHANGED <<U, ident, bad>>
 
 JoinFail(r, s, size) ==
   /\ CanOp
@@ -135,7 +146,23 @@ SetIdentity(r, w) ==
   /\ ident' = [ident EXCEPT ![r] = w]
   /\ clk'   = [clk EXCEPT ![r] = MaxInt(@, MaxTimeOf(U, heads[r], 0))]
   /\ hist'  = Append(hist, <<"SI", r, w>>)
-  /\ UNCHANGED <<U, ents, heads, nidx, pure>>
+  /\ UNCHANGED <<U, ents, heads, nidx, pure, bad>>
+
+(***************************************************************************)
+(* Tamper: an adversarial replica rebuilds its log (NewLog with Entries and *)
+(* Heads) with one entry replaced by an altered copy that keeps the hash:  *)
+(* no signature, a wrong signature, no key, another key, an edited payload *)
+(* or another log id.  Structure (ids, next) is unchanged; only a          *)
+(* "foreign" copy changes what difference() does with it.                  *)
+(***************************************************************************)
+Tamper(r, x, k) ==
+  /\ CanOp
+  /\ r \in Evil /\ x \in ents[r] /\ x \notin BadIds(r)
+  /\ Cardinality(UNION {bad[q] : q \in R}) < MaxBad
+  /\ bad'  = [bad EXCEPT ![r] = @ \cup {<<x, k>>}]
+  /\ pure' = [pure EXCEPT ![r] = @ /\ k # "foreign"]
+  /\ hist' = Append(hist, <<"T", r, x, k>>)
+  /\ UNCHANGED <<U, ents, heads, nidx, clk, ident>>
 
 (***************************************************************************)
 (* Iterator (log.go l.416-503): a pure function of the log and the options *)
@@ -163,6 +190,7 @@ Iterate(r, o) ==
   /\ UNCHANGED core
 
 Next ==
+  \/ \E r \in Evil, k \in Kinds : \E x \in ents[r] : Tamper(r, x, k)
   \/ \E r \in IterOn : \E o \in IterOptions(r) : Iterate(r, o)
   \/ \E r \in R, pc \in PCs : AppendOk(r, pc) \/ AppendDenied(r, pc)
   \/ \E r, s \in R : JoinNoop(r, s) \/ JoinOk(r, s, -1) \/ JoinFail(r, s, -1)
@@ -260,6 +288,17 @@ C04_Append ==
        /\ SeqRange(e.refs) \cap SeqRange(e.next) = {}
        /\ Len(e.refs) = Cardinality(SeqRange(e.refs))
        /\ \A k \in 0..8 : (pc < 2^(k+1)) => Len(e.refs) <= k + 2]_vars
+
+\* C06: a successful join never admits a tampered copy, a denied writer or a foreign id;
+\* a join none of whose candidates is bad succeeds (JoinOk is then the enabled action)
+C06_OnlyValidAdded ==
+  [][\A r \in R : \A x \in ents'[r] \ ents[r] :
+        LET op == hist'[Len(hist')] IN
+        op[1] \in {"J", "JB"} =>
+          /\ x \notin Invalid(op[3]) /\ <<x, "foreign">> \notin bad[op[3]]
+          /\ U[x].w \notin Denied[r] /\ U[x].lid = Lid[r]]_vars
+C06_HeadsStayInLog ==
+  \A r \in R : bad[r] = {} => HeadSet(r) \subseteq ents[r]    \* also after merging from tampered sources
 
 \* C15: the transcription of Iterator meets its declarative specification
 C15_AlgoMeetsSpec ==
